@@ -112,6 +112,9 @@ func (cs *gcpClientStream) SendMsg(m interface{}) error {
 			return err
 		}
 		cs.ClientStream = realCS
+		// The error of an earlier, failed attempt must not make RecvMsg and
+		// Header refuse this stream (they read it under the lock for that reason).
+		cs.initStreamErr = nil
 	}
 	cs.Unlock()
 	cs.cond.Broadcast()
@@ -123,9 +126,9 @@ func (cs *gcpClientStream) RecvMsg(m interface{}) error {
 	// is initialized, the initialization failed or the context ended.
 	cs.Lock()
 	cs.waitForStream()
-	if cs.initStreamErr != nil {
+	if err := cs.initStreamErr; err != nil {
 		cs.Unlock()
-		return cs.initStreamErr
+		return err
 	}
 	if cs.ClientStream == nil {
 		cs.Unlock()
@@ -168,9 +171,9 @@ func (cs *gcpClientStream) wakeOnCtxDone() {
 func (cs *gcpClientStream) Header() (metadata.MD, error) {
 	cs.Lock()
 	cs.waitForStream()
-	if cs.initStreamErr != nil {
+	if err := cs.initStreamErr; err != nil {
 		cs.Unlock()
-		return nil, cs.initStreamErr
+		return nil, err
 	}
 	if cs.ClientStream == nil {
 		cs.Unlock()
